@@ -5,8 +5,10 @@ file name that is already on the stack; `Pop`; the include trace), `core/scan_pr
 `processKeyword`: JSIGHT is refused inside an included file).
 
 Files are lists of file-level tokens; the file system is an association list from file ids to entries.
-The directive stream of the project is the textual splice of the files (the pending directive is not flushed at
-an include boundary); every directive remembers the include chain that was live when it was read.
+The directive stream of the project is the textual splice of the files; every directive remembers the include chain
+that was live when it was read.  Since the repair F42 the pending directive is placed when an INCLUDE keyword is met
+(before the file name is looked at), so that a diagnostic about it is raised while the scanner stack still describes
+the file it was written in.
 -/
 namespace JSight
 open Gen
@@ -58,9 +60,9 @@ def flushPending (st : PScan) : Except ProjErr PScan :=
     | .ok c => .ok { st with ctx := c, pending := none }
 
 /-- `scanProject`: the file `cur` is scanned from position `pos`; `stack` = the including files with the positions of
-their INCLUDE directives, innermost first (= `scanner.Stack`, top first). The pending directive is NOT placed at an
-INCLUDE; it is placed at the next keyword, at ")" and at the end of EVERY file (`processEOF`), where an open
-parenthesised context is an error. -/
+their INCLUDE directives, innermost first (= `scanner.Stack`, top first). The pending directive is placed at the next
+keyword (INCLUDE too), at ")" and at the end of EVERY file (`processEOF`), where an open parenthesised context is an
+error. -/
 def scanIncFile (fs : FS) : Nat → List (Nat × Nat) → Nat → Nat → List FTok → PScan → Except ProjErr PScan
   | 0, _, _, _, _, _ => .error (.inc .fuel)
   | _ + 1, _, _, _, [], st =>
@@ -84,6 +86,10 @@ def scanIncFile (fs : FS) : Nat → List (Nat × Nat) → Nat → Nat → List F
         | .error e => .error (.ctx e)
         | .ok c => scanIncFile fs fuel stack cur (pos + 1) rest { st' with ctx := c }
     | .incl f valid =>
+      -- `processInclude`: the directive written before the INCLUDE is placed first (repair F42)
+      match flushPending st with
+      | .error e => .error e
+      | .ok st =>
       if !valid then .error (.inc (.badName cur pos))
       else match fs.get? f with
         | none => .error (.inc (.missing cur pos))
